@@ -23,6 +23,7 @@ CONSTANTS
   Prefixes,      \* set of sets of keys: the key sets selected by the scan prefixes used
   MemCap,        \* memtable capacity in bytes
   PutSz, DelSz,  \* accounted size of a put / delete entry
+  WalCap,        \* MaxWALSize: the active WAL segment reaching it forces a memtable rotation (0 = never)
   L0Trigger,     \* compaction trigger (number of L0 tables)
   MaxOps,        \* bound on foreground writes
   MaxReads,      \* bound on reads
@@ -157,7 +158,10 @@ ApplyWrite(st, k, v) ==
   LET s == st.seq + 1
       mt2 == MtPut(st.mem[Len(st.mem)], k, s, v)
       w2  == [st.wal EXCEPT !.active = Append(@, [s |-> s, k |-> k, v |-> v]), !.lastW = s]
-      full == MtSize(mt2) > MemCap
+      \* a WAL record is seq(8) + len(4) + key + tombstone(1) [+ len(4) + value]: a put costs PutSz, a delete DelSz - 4
+      RECURSIVE WalBytes(_)
+      WalBytes(es) == IF es = <<>> THEN 0 ELSE (IF Head(es).v = Tomb THEN DelSz - 4 ELSE PutSz) + WalBytes(Tail(es))
+      full == MtSize(mt2) > MemCap \/ (WalCap > 0 /\ WalBytes(w2.active) >= WalCap)
   IN IF full
      THEN [mem |-> Append([st.mem EXCEPT ![Len(st.mem)] = mt2], EmptyMt), wal |-> WalCut(w2),
            flushQ |-> st.flushQ + 1, seq |-> s, rot |-> TRUE]
